@@ -60,7 +60,11 @@ def gen_hier(rnd: random.Random, nvars: int, force: str | None = None) -> dict:
 
     def dist_for(fam):
         if fam == "normal":
-            return {"fam": fam, "params": {"loc": pref("real"), "scale": pref("pos")}}
+            # which object evaluates the density: tfp JAX substrate, a harness class returning NumPy arrays,
+            # one returning Python floats / a list subclass with .sum, or the tfp NumPy substrate
+            p = 0.7 if force == "npdist" else 0.12
+            impl = rnd.choice(["np", "np", "pylike", "npsub"]) if rnd.random() < p else "jax"
+            return {"fam": fam, "impl": impl, "params": {"loc": pref("real"), "scale": pref("pos")}}
         if fam == "gamma":
             return {"fam": fam, "params": {"concentration": conc(), "rate": pref("pos")}}
         if fam == "invgamma":
@@ -80,7 +84,9 @@ def gen_hier(rnd: random.Random, nvars: int, force: str | None = None) -> dict:
         last = i == nvars - 1
         r = rnd.random()
         v: dict = {"name": name, "calc": None, "dist": None, "role": "none", "transform": None, "shape": 0}
-        if last or (i >= 2 and r < 0.25):
+        if force == "auto" and i == 0:
+            r = 0.99            # first variable: a positive parameter with auto_transform
+        if (last and not (force == "auto" and i == 0)) or (i >= 2 and r < 0.25):
             # observed variable (vector or scalar)
             fam = rnd.choice(["normal", "normal", "normal", "poisson", "gamma"])
             n = rnd.choice([0, 1, 2, 3, 4, 6])
@@ -141,12 +147,18 @@ def gen_hier(rnd: random.Random, nvars: int, force: str | None = None) -> dict:
         else:
             # strong parameter with a prior
             fam = rnd.choice(["normal", "normal", "gamma", "invgamma"])
+            if force == "auto" and not any(w["transform"] == "auto" for w in vs):
+                fam = rnd.choice(["gamma", "invgamma"])
             v["positive"] = fam != "normal"
             v["value"] = pos_val(rnd) if v["positive"] else real_val(rnd)
             v["dist"] = flags(dist_for(fam))
             v["role"] = "param"
-            if v["positive"] and rnd.random() < (0.7 if force == "transform" else 0.3):
-                v["transform"] = rnd.choice(["exp", "default"])
+            if v["positive"] and force == "auto":
+                # Var.auto_transform = True: the variable is transformed inside build_model
+                v["transform"] = "auto"
+                v["role"] = rnd.choice(["param", "param", "none"])
+            elif v["positive"] and rnd.random() < (0.7 if force == "transform" else 0.3):
+                v["transform"] = rnd.choice(["exp", "default", "auto"])
             (poss if v["positive"] else reals).append(name)
         vs.append(v)
 
@@ -180,7 +192,10 @@ def gen_hier(rnd: random.Random, nvars: int, force: str | None = None) -> dict:
     if force == "user" and not user:
         user["prob"] = {"kind": "value", "args": [], "value": real_val(rnd)}
     return {"kind": "hier", "f32": rnd.random() < 0.25, "vars": vs, "free": free, "user": user,
-            "nodist_node": force == "nodist" or rnd.random() < 0.05, "force": force}
+            "nodist_node": force == "nodist" or rnd.random() < 0.05, "force": force,
+            # "roots": only variables that no other variable reads are added to the GraphBuilder, the others are
+            # reached as recursive inputs
+            "add_mode": rnd.choice(["all", "roots"])}
 
 
 def gen_distreg(rnd: random.Random, force: str | None = None) -> dict:
@@ -209,8 +224,20 @@ def gen_distreg(rnd: random.Random, force: str | None = None) -> dict:
             "per_obs": [rnd.random() < 0.6 for _ in range(nd)], "user": {}, "force": force}
 
 
-def gen_positions(rnd: random.Random, prog: dict, nsteps: int) -> list[dict]:
+def gen_positions(rnd: random.Random, prog: dict, nsteps: int, force: str | None = None) -> list[dict]:
     steps = []
+    cur = {}        # values a "fresh" step can assign again (equal value, new object)
+    if prog["kind"] == "hier":
+        for v in prog["vars"]:
+            if v["calc"] is None and not v["transform"]:
+                cur[v["name"]] = v["value"]
+        for fd in prog["free"]:
+            cur["@" + fd["name"]] = fd["at"]
+    else:
+        for j, s in enumerate(prog["smooths"]):
+            cur[f"s{j}_beta"] = s["beta"]
+            if s["type"] == "np":
+                cur[f"s{j}_tau2"] = s["tau2"]
     for _ in range(nsteps):
         pos = {}
         if prog["kind"] == "hier":
@@ -247,7 +274,16 @@ def gen_positions(rnd: random.Random, prog: dict, nsteps: int) -> list[dict]:
                     pos[f"s{j}_tau2"] = pos_val(rnd)
             if not pos:
                 pos["s0_beta"] = [dy(rnd, -1, 1) for _ in prog["smooths"][0]["beta"]]
-        steps.append({"mode": rnd.choice(["direct", "direct", "manual", "iface"]), "pos": pos})
+        if force == "inplace":
+            mode = rnd.choice(["inplace", "inplace", "fresh"])
+        else:
+            mode = rnd.choice(["direct", "direct", "manual", "iface", "inplace", "fresh"])
+        if mode == "fresh" and cur:
+            ks = sorted(cur)
+            rnd.shuffle(ks)
+            pos = {k: cur[k] for k in ks[:rnd.randint(1, min(3, len(ks)))]}
+        cur.update({k: v for k, v in pos.items() if not k.endswith("_transformed")})
+        steps.append({"mode": mode, "pos": pos})
     return steps
 
 
@@ -324,7 +360,7 @@ def build(prog: dict, flip_per_obs: bool = False) -> Built:
         fam = d["fam"]
         kw = {k: arg(p) for k, p in d["params"].items()}
         if fam == "normal":
-            node = cls(tfd.Normal, **kw, _name=name)
+            node = cls(normal_impl(d.get("impl", "jax")), **kw, _name=name)
         elif fam == "gamma":
             node = cls(tfd.Gamma, **kw, _name=name)
         elif fam == "invgamma":
@@ -346,6 +382,7 @@ def build(prog: dict, flip_per_obs: bool = False) -> Built:
         "sqp": lambda c: (lambda a: jnp.asarray(a) * jnp.asarray(a) + c[0]),
     }
     added = []
+    autos = []
     for v in prog["vars"]:
         d = v["dist"]
         if d is not None and d["fam"] == "mvnd":
@@ -363,6 +400,11 @@ def build(prog: dict, flip_per_obs: bool = False) -> Built:
             var.parameter = True
         objs[v["name"]] = var
         owner = var
+        if v["transform"] == "auto":
+            var.auto_transform = True
+            autos.append(v)
+            added.append(var)
+            continue
         if v["transform"]:
             owner = var.transform(tfb.Exp() if v["transform"] == "exp" else None)
             B.assign[v["name"] + "_transformed"] = owner
@@ -370,7 +412,8 @@ def build(prog: dict, flip_per_obs: bool = False) -> Built:
         elif v["calc"] is None:
             B.assign[v["name"]] = var
         if d is not None:
-            B.dist_info[owner.dist_node.name] = {"fam": d["fam"], "transform": v["transform"], "owner": v["name"]}
+            B.dist_info[owner.dist_node.name] = {"fam": d["fam"], "transform": v["transform"], "owner": v["name"],
+                                                 "impl": d.get("impl", "jax")}
         added.append(var)
     for fd in prog["free"]:
         node = mkdist(fd["dist"], name=fd["name"])
@@ -389,6 +432,20 @@ def build(prog: dict, flip_per_obs: bool = False) -> Built:
         from liesel.model.nodes import NoDist
         added.append(NoDist())
     gb = lsl.GraphBuilder(to_float32=prog["f32"])
+    if prog.get("add_mode") == "roots":
+        read = set()
+        for v in prog["vars"]:
+            if v["calc"]:
+                read.update(v["calc"]["args"])
+            if v["dist"]:
+                read.update(q["ref"] for q in v["dist"]["params"].values() if "ref" in q)
+        for fd in prog["free"]:
+            read.update(q["ref"] for q in fd["dist"]["params"].values() if "ref" in q)
+        for u in prog["user"].values():
+            if u["kind"] in ("calc", "tcalc", "calc_vec"):
+                read.update(u["args"])
+        inner = {id(objs[nm]) for nm in read}
+        added = [a for a in added if id(a) not in inner]
     gb.add(*added)
     for which, u in prog["user"].items():
         args = [objs[a] for a in u["args"]]
@@ -403,16 +460,71 @@ def build(prog: dict, flip_per_obs: bool = False) -> Built:
         B.user_nodes[which] = node
         setattr(gb, f"log_{which}_node", node)
     B.model = gb.build_model()
+    for v in autos:
+        tname = v["name"] + "_transformed"
+        if tname in B.model.vars:
+            tv = B.model.vars[tname]
+            B.assign[tname] = tv
+            if tv.dist_node is not None:
+                B.dist_info[tv.dist_node.name] = {"fam": v["dist"]["fam"], "transform": "auto", "owner": v["name"], "impl": "jax"}
     return B
 
 
-def apply_position(B: Built, pos: dict, manual: bool):
+def normal_impl(impl):
+    """the callable wrapped by the Dist node of a Normal(loc, scale)"""
+    import numpy as np
+    if impl == "jax":
+        import tensorflow_probability.substrates.jax.distributions as tfd
+        return tfd.Normal
+    if impl == "npsub":
+        try:
+            import tensorflow_probability.substrates.numpy.distributions as nd
+            return nd.Normal
+        except Exception:       # substrate not importable: fall back to the harness class
+            impl = "np"
+
+    class SumList(list):
+        """a list with a .sum method (duck-typed array)"""
+        def sum(self):
+            return sum(self)
+
+    class NpNormal:
+        """log_prob returns NumPy arrays (np.ndarray / np.float64), never a jax.Array"""
+        def __init__(self, loc, scale):
+            self.loc, self.scale = np.asarray(loc), np.asarray(scale)
+
+        def log_prob(self, x):
+            x = np.asarray(x)
+            z = (x - self.loc) / self.scale
+            return -0.5 * z * z - np.log(self.scale) - 0.5 * np.log(2 * np.pi)
+
+    class PyNormal(NpNormal):
+        """log_prob returns a Python float for a scalar value and a list with .sum for a vector"""
+        def log_prob(self, x):
+            lp = NpNormal.log_prob(self, x)
+            if np.ndim(lp) == 0:
+                return float(lp)
+            if np.ndim(lp) == 1:
+                return SumList(float(t) for t in lp)
+            return lp
+    return PyNormal if impl == "pylike" else NpNormal
+
+
+def apply_position(B: Built, pos: dict, manual: bool, inplace: bool = False):
+    """inplace: the NumPy buffer the variable holds is modified in place and the SAME object is assigned back
+    (b = var.value; b[...] = new; var.value = b); otherwise a fresh array is assigned"""
     import numpy as np
     f = lambda x: np.asarray(x, dtype=B.dtype)
     if manual:
         B.model.auto_update = False
     for k, val in pos.items():
-        B.assign[k].value = f(val)
+        obj = B.assign[k]
+        b = obj.value
+        if inplace and isinstance(b, np.ndarray) and b.flags.writeable and b.shape == np.shape(val):
+            b[...] = f(val)
+            obj.value = b
+        else:
+            obj.value = f(val)
     if manual:
         B.model.update()
         B.model.auto_update = True
@@ -611,11 +723,11 @@ def evaluate(prog: dict, positions: list[dict]) -> dict:
             if v["transform"] == "exp":
                 lp += math.log(float(x))               # ln |d exp(u)/du| = u = ln x
                 dname = nm + "_transformed_log_prob"
-            elif v["transform"] == "default" and d["fam"] == "invgamma":
+            elif v["transform"] in ("default", "auto") and d["fam"] == "invgamma":
                 # x = 1 / softplus(u):  |dx/du| = sigmoid(u) x^2,  sigmoid(u) = 1 - e^{-1/x}
                 lp += math.log(-math.expm1(-1.0 / float(x))) + 2 * math.log(float(x))
                 dname = nm + "_transformed_log_prob"
-            elif v["transform"] == "default":
+            elif v["transform"] in ("default", "auto"):
                 # softplus: x = ln(1 + e^u), dx/du = sigmoid(u) = 1 - e^{-x}
                 lp += math.log(-math.expm1(-float(x)))
                 dname = nm + "_transformed_log_prob"
